@@ -221,7 +221,7 @@ def _sigF(F, p, o):
 
 def run(F, tier, res):
     res.assumptions += ['Rust `regex` and Python `re` agree on group structure', 'std / dependency functions do not panic on the values they are given (not analysed)']
-    res.not_decided += ['hangs / termination, allocation size, str char-boundary slicing in general, indexing inside the alignment kernels (align.rs, edits.rs: DP table indices), subtraction / slicing inside the escape-sequence kernel (ansi/mod.rs: offsets within Element ranges produced by its own iterator) and inside the alignment / annotation kernels (align.rs, edits.rs: offsets over their own token lists), arithmetic other than subtraction',
+    res.not_decided += ['explicit aborts inside helper functions that do not touch the state machine (not interpreted by E1), hangs / termination, allocation size, str char-boundary slicing in general, indexing inside the alignment kernels (align.rs, edits.rs: DP table indices), subtraction / slicing inside the escape-sequence kernel (ansi/mod.rs: offsets within Element ranges produced by its own iterator) and inside the alignment / annotation kernels (align.rs, edits.rs: offsets over their own token lists), arithmetic other than subtraction',
                         'the CSI-sequence + non-ASCII text panic and the multi-byte combined-diff prefix panic named in the property text (char-boundary slicing: runtime values)']
     delta = [p for p in F.fn_bodies if p == 'delta::delta']
     if not delta:
@@ -693,7 +693,7 @@ def run(F, tier, res):
         else:
             res.violate('P4', key, 'an explicit abort (%s) is reachable from the line loop for some byte stream [first abstract state: %s, via %s]' % (
                 a['callee'].split('::')[-1], a['state'], a['via']), where=a['site'])
-    res.rule('C03.P4', n4, 2, 'explicit aborts reached by the abstract interpreter without input-grammar assumptions; each triaged', discharged=ok4,
+    res.rule('C03.P4', n4, 1, 'explicit aborts reached by the abstract interpreter (in the functions it interprets: those that touch the state machine) without input-grammar assumptions; each triaged', discharged=ok4,
              samples=['%s <- %s' % (a['callee'].split('::')[-1], a['fn'].split('::')[-1]) for a in aborts][:8])
     E.evidence(res, R)
     res.distinct.update(r['rule'] for r in res.rules)
